@@ -486,6 +486,48 @@ func main() {
 		}
 	}
 
+	// ---- 2b. encoding.Transport counters: messages and bytes per kind on both sides equal what was framed
+	for ci, c := range codecs {
+		h.Case("counters " + c.name)
+		a2b := &pipeRW{msgs: make(chan []byte, 4096)}
+		A := encoding.NewTransport(&encoding.TransportConfig{Transport: a2b, Encoding: c.enc})
+		B := encoding.NewTransport(&encoding.TransportConfig{Transport: a2b, Encoding: c.enc})
+		wantBytes, wantMsgs := map[reflect.Type]uint64{}, map[reflect.Type]uint64{}
+		total := 0
+		for k := 0; k < 120; k++ {
+			g := &gen{rng: rng, canonical: true, variant: k}
+			m := kinds[(k*7+ci)%len(kinds)]()
+			g.fill(reflect.ValueOf(m).Elem(), 0)
+			var buf bytes.Buffer
+			if _, err := c.enc.EncodeTo(&buf, m); err != nil {
+				continue
+			}
+			if err := A.Write(m); err != nil {
+				h.Violate(fmt.Sprintf("%s: Transport.Write of a %T failed: %v", c.name, m, err))
+				continue
+			}
+			if _, err := B.Read(); err != nil {
+				h.Violate(fmt.Sprintf("%s: Transport.Read of a %T failed: %v", c.name, m, err))
+				continue
+			}
+			wantBytes[reflect.TypeOf(m)] += uint64(buf.Len())
+			wantMsgs[reflect.TypeOf(m)]++
+			total++
+		}
+		tx, rx := A.TxCount(), B.RxCount()
+		for typ, n := range wantMsgs {
+			if tx.MessageCount[typ] != n || rx.MessageCount[typ] != n || tx.ByteCount[typ] != wantBytes[typ] || rx.ByteCount[typ] != wantBytes[typ] {
+				h.Violate(fmt.Sprintf("%s counters for %v: %d messages / %d bytes were framed; sender counted %d / %d, receiver %d / %d", c.name, typ, n, wantBytes[typ],
+					tx.MessageCount[typ], tx.ByteCount[typ], rx.MessageCount[typ], rx.ByteCount[typ]))
+			}
+		}
+		if A.TxMessageCounterValue() != uint64(total) || B.RxMessageCounterValue() != uint64(total) {
+			h.Violate(fmt.Sprintf("%s: %d messages went through; message counters say tx=%d rx=%d", c.name, total, A.TxMessageCounterValue(), B.RxMessageCounterValue()))
+		}
+		h.Op("msg counters "+c.name, "-")
+		h.Distinct("counters/" + c.name)
+	}
+
 	// ---- 3. hostile input for the decoders
 	try := func(ci int, b []byte, what string) {
 		c := codecs[ci]
